@@ -2,6 +2,13 @@
 import sys, math, datetime
 from .base import *
 
+def _float_close(v, fr):
+    """v (a float) is the correctly rounded value of the exact rational fr up to 1e-12 relative (the code adds sexagesimal parts in float arithmetic)"""
+    try: w = float(fr)
+    except OverflowError: w = float('inf') if fr > 0 else float('-inf')
+    if v != v: return False
+    if w in (float('inf'), float('-inf')) or v in (float('inf'), float('-inf')): return v == w
+    return abs(v - w) <= 1e-12 * max(abs(w), 1e-300)
 TYPES = {'null': type(None), 'bool': bool, 'int': int, 'float': float, 'timestamp': (datetime.date, datetime.datetime), 'str': str}
 def run_impl_case(case):
     import yaml
@@ -44,6 +51,12 @@ def run_impl_case(case):
                             bad.append(dict(kind='plain_value_type', what='plain %s constructed as %s' % (short, type(v).__name__), loader=L.__name__))
                         elif short == 'int' and v != spec11.yaml11_int(s):
                             bad.append(dict(kind='int_value', what='int text constructed as %r, the rules give %r' % (v, spec11.yaml11_int(s)), loader=L.__name__))
+                        elif short == 'float' and spec11.yaml11_float(s) is not None and not _float_close(v, spec11.yaml11_float(s)):
+                            bad.append(dict(kind='float_value', what='float text constructed as %r, the rules give %s' % (v, float(spec11.yaml11_float(s))), loader=L.__name__))
+                        elif short == 'float' and spec11.yaml11_float(s) is None and not (v != v or abs(v) == float('inf')):
+                            bad.append(dict(kind='float_value', what='special float text constructed as %r' % v, loader=L.__name__))
+                        elif short == 'float' and s.replace('_', '').lower().lstrip('+-') == '.inf' and (v > 0) != (not s.startswith('-')):
+                            bad.append(dict(kind='float_value', what='signed infinity constructed as %r' % v, loader=L.__name__))
                         elif short == 'bool' and v != (s.lower() in ('yes', 'true', 'on')):
                             bad.append(dict(kind='bool_value', what='bool text constructed as %r' % v, loader=L.__name__))
                     except yaml.YAMLError as e:
